@@ -84,8 +84,6 @@ type blockCtx struct {
 	Migratable []uint64 // of those: declared before 0.14.1 and not migrated yet
 	NextAddr   uint64
 	NextClass  uint64
-	// ForceSierra: declare a Sierra class in this block (block 0 of chains that cross 0.14.0; see probes.go crossingProbe)
-	ForceSierra bool
 }
 
 type Built struct {
@@ -277,7 +275,7 @@ func genDiff(r *hx.RNG, ctx blockCtx) (*core.StateDiff, map[felt.Felt]core.Class
 			d.StorageDiffs[*fz(a)] = m // possibly an empty map: hashed as (address, 0)
 		}
 	}
-	if r.Chance(35) || ctx.ForceSierra {
+	if r.Chance(35) {
 		for i, n := 0, 1+r.Intn(2); i < n; i++ {
 			id := next.NextClass
 			next.NextClass++
@@ -362,7 +360,6 @@ func planChain(seed uint64) chainPlan {
 		vers[i] = versions[vi]
 	}
 	ctx := blockCtx{Number: 0, Timestamp: 1_700_000_000 + uint64(r.Intn(1000)), NextAddr: 100, NextClass: 500}
-	ctx.ForceSierra = vers[0] < "0.14.0" && vers[n-1] >= "0.14.0"
 	var p chainPlan
 	for i := 0; i < n; i++ {
 		ctx.Version = vers[i]
@@ -371,7 +368,6 @@ func planChain(seed uint64) chainPlan {
 		p.Seeds = append(p.Seeds, s)
 		p.Ctxs = append(p.Ctxs, ctx)
 		ctx = next
-		ctx.ForceSierra = false
 	}
 	return p
 }
